@@ -64,7 +64,9 @@ check('C07', TV,
       'tower theorem is discharged in both directions for every integer weight vector up to the bound (exists-forall '
       'LRA in logarithms, all binary-expansion branches of split()); exact optimum of P == exact optimum of the user '
       'model (z3 Optimize) == solve(); cone programs: no user-feasible point beats the reported optimum by delta; '
-      'small MILPs: exact LIRA optimum == value of the real MILP path.',
+      'small MILPs: exact LIRA optimum == value of the real MILP path. Exponential-cone programs: projection under the '
+      'cone-term abstraction (stretch) and a numeric search for a user-feasible point (true exp/log) that beats the reported '
+      'optimum, pinned into the real compiled program before it is reported. All members also through the dro front end.',
       'Trusted as C06 plus closedness of the power cone / tower (boundary covered by samples). NRA projection '
       'obligations may be undecided (reported). Tolerance-regime atoms (quad, scaled squares): optimum sandwich only.',
       'SMT exists-forall LRA/NRA projection + log-linear tower theorem + exact LRA/LIRA optimisation',
@@ -74,11 +76,12 @@ check('C08', TV,
       'Both the real do_math() and do_math(primal=False) outputs are read as exact-rational programs P and D. z3 '
       'decides weak duality over ALL feasible pairs (exists x,y: P(x), D(y), c\'x+d\'y<0 is unsat; QF_LRA for LPs, '
       'QF_NRA for SOC), computes both optima exactly (z3 Optimize) and checks opt(D) = -opt(P) and that D is solvable '
-      'whenever P is feasible and bounded; SOC: a primal/dual pair closing the gap exists. Every pair of the 10 '
-      'per-variable bound patterns (free, >=0, <=0, finite lower/upper, both, fixed at 0, fixed non-zero, [0,u], [l,0]) '
-      'is enumerated, plus seeded 3-variable members, SOC members with shared cone variables and ro members.',
-      'Exponential-cone dual blocks: weak duality for all feasible pairs by the cone-pairing relaxation (QF_NRA), zero gap '
-      'and dual solvability by witnesses (real ECOS solutions of both formulas checked against both exact programs).',
+      'whenever P is feasible and bounded. Every pair of the 16 per-variable bound patterns (free, >=0, <=0, finite '
+      'lower/upper, both, fixed at 0 / non-zero, [0,u], [l,0], strictly negative / positive, two bound objects on one entry) '
+      'is enumerated, plus seeded 3-variable members and every member of the ro, dro and deterministic atom families. Conic '
+      'programs (second-order and exponential cones, also together): weak duality for all feasible pairs by the cone-pairing '
+      'relaxation decided as a linear program (reformulation-linearisation, QF_LRA; QF_NRA fall-back), zero gap and dual '
+      'solvability by witnesses (real ECOS solutions of both real formulas checked against both exact programs).',
       'Trusted: z3 (Optimize for exact LRA optima), pairing inequalities of the second-order and exponential cones. LMI dual '
       'blocks are outside. SOC/exp weak-duality obligations with several cones are stretch (may be undecided). ECOS is used '
       'to establish that a conic primal is bounded (precondition) and as a source of witnesses for existential claims, '
